@@ -8,6 +8,7 @@ def run(ctx):
     b = build.ensure_explorer("arc_walk", "asan", extra_ld=WRAP)
     ctx.run_space(b, "kinds", ["prop=13", "stride=1"], cpu_limit=60)
     ctx.run_space(b, "extreme", cpu_limit=120)
+    ctx.run_space(b, "work", cpu_limit=120)
     from vlib import cliprop
     from props import cli_misc
     cliprop.run_space(ctx, "props.cli_misc", "c13", cli_misc.cases_io(ctx.thorough), chunk=16)
@@ -16,6 +17,7 @@ def run(ctx):
     return ctx.finish(
         rule="'kinds': the 7 generated archives cut at every offset x walks {list, read all, check all} x 5 stream kinds, with per-call zero-progress counters and live-heap tracking; "
              "'extreme': level-3 header length at every power of two +-1 up to 2^32-1 with and without bytes present, 4 GiB member sizes with 10 bytes of data, level-1 chains of maximal extended headers, 256 KiB +- 30 of header-less lead-in, "
+             "'work': headers as large as the format allows (1 MiB level 3, 64 KiB level 1/2) with every byte present, 11 families of name/path content (all upper case, separators only, '../' repeated, one-letter components, ...) x 5 OS types x {name header, path header, both} x 3 stream kinds: CPU time of listing <= 1.5 s + 1 us per byte present (measured worst case in the notes); "
              "every method with 0/2 bytes of input and declared lengths up to 4 MiB. Oracle: every call returns within the budget, output <= declared, peak live heap <= 8 MiB + 2*len(input). non-trivial = distinct (archive, cut, walk) / extreme shapes",
         replay_fn=lambda rep: (cliprop.replay_case(rep) if rep.get('kind') == 'cli' else runner.replay_explorer(rep, quiet=True)))
 
